@@ -62,7 +62,7 @@ Definition apply_label_changes (aggl : N -> N) (members_on : bool) (ix : list (N
   : list (N * index) :=
   fold_left (fun ix lm =>
                match change_label_index (fst lm) (aget N.eqb (fst lm) ix) svc
-                                        (if members_on then snd lm else []) with
+                                        (if members_on && negb (fst lm =? 0) then Some (snd lm) else None) with
                | Ok oi => put_idx ix (fst lm) oi
                | _ => ix
                end) (agg_labels aggl svc) ix.
